@@ -290,24 +290,21 @@ Definition atomic_result (i : ar_in) : outcome ar_out :=
   let ps := if pok then Some (match a_pstdout i with Some b => b | None => default_stdout end) else None in
   let pn := match a_pnative i with Some p => p | None => default_native_files end in
   (* field order: protocols, ..., wavefunction (pre), return_result, stdout, native_files *)
-  match wfn_stage pw (a_wfn i) with
+  (* the wavefunction stage only ever fails with a validation error (Proofs: wfn_stage_err) *)
+  let w := wfn_stage pw (a_wfn i) in
+  let r := return_result (a_driver i) (a_rr i) in
+  let s := stdout_protocol ps (a_stdout i) in
+  let n := match a_native i with
+           | None => Ok []
+           | Some v => if pok then native_protocol pn v else Err PyKeyError   (* values['protocols'] *)
+           end in
+  match n with
   | Err PyKeyError => Err PyKeyError
-  | Err PyTypeError => Err PyTypeError
-  | w =>
-    let r := return_result (a_driver i) (a_rr i) in
-    let s := stdout_protocol ps (a_stdout i) in
-    let n := match a_native i with
-             | None => Ok []
-             | Some v => if pok then native_protocol pn v else Err PyKeyError   (* values['protocols'] *)
-             end in
-    match n with
-    | Err PyKeyError => Err PyKeyError
-    | _ =>
-      match w, r, s, n with
-      | Ok w', Ok r', Ok s', Ok n' =>
-        if pok then Ok {| o_wfn := w'; o_rr := r'; o_stdout := s'; o_native := n' |} else Err Validation
-      | _, _, _, _ => Err Validation
-      end
+  | _ =>
+    match w, r, s, n with
+    | Ok w', Ok r', Ok s', Ok n' =>
+      if pok then Ok {| o_wfn := w'; o_rr := r'; o_stdout := s'; o_native := n' |} else Err Validation
+    | _, _, _, _ => Err Validation
     end
   end.
 
